@@ -410,13 +410,13 @@ def run(chk):
     quick = chk.tier == "quick"
     known = known_unescaped_keys()
     chk.extra["known_unescaped_sites"] = len(known)
-    cases = unit_cases(chk, rng, 120 if quick else 1500)
+    cases = unit_cases(chk, rng, 300 if quick else 2500)
     byf = {}
     for _, d in cases:
         byf[d["f"]] = byf.get(d["f"], 0) + 1
     chk.extra["cases_by_function"] = byf
     judge_cases(chk, cases, "masking / initial value / escape / HTML reading")
-    end_to_end(chk, rng, 60 if quick else 700, known)
+    end_to_end(chk, rng, 120 if quick else 1200, known)
     for payload in getattr(chk, "_c18_deferred", []):
         chk.violation("broken-correspondence", payload, False)
     facts = witness_facts()
